@@ -65,12 +65,61 @@ def _strip_comments(text):
     return "".join(out)
 
 
+def released():
+    """which regenerated-from-source groups are part of the registered checks (harness/released.json)"""
+    return json.load(open(os.path.join(VERIF, "harness", "released.json")))
+
+
+def fn_spec_modules():
+    """the released spec tables of the function translator (harness/fnspecs/<name>.py)"""
+    import importlib.util
+    mods = []
+    for name in released()["fn_spec_files"]:
+        sp = importlib.util.spec_from_file_location("fnspecs_" + name, os.path.join(VERIF, "harness", "fnspecs", name + ".py"))
+        m = importlib.util.module_from_spec(sp)
+        sp.loader.exec_module(m)
+        mods.append(m)
+    mods.sort(key=lambda m: (getattr(m, "ORDER", 100), m.__name__))
+    return mods
+
+
+def regen_all():
+    """T-tie: rewrite every lean/NfcVerif/Gen/*.lean from the tree under test (REPO).  Called with the lake lock held
+    before every build, so that a build never sees files generated from another tree (parallel checks against
+    scratch worktrees).  Files are only touched when their text changes."""
+    import shutil
+    import tempfile
+    import translate_exc
+    import translate_fn
+    import translate_lock
+    import translate_tables
+    gen = os.path.join(LEAN, "NfcVerif", "Gen")
+    tmp = tempfile.mkdtemp(prefix="gen-")
+    try:
+        translate_tables.emit(REPO, os.path.join(tmp, "Tables.lean"))
+        translate_lock.emit(REPO, os.path.join(tmp, "ClfLock.lean"))
+        translate_exc.emit(REPO, tmp)
+        mods = fn_spec_modules()
+        specs = [sp for m in mods for sp in m.SPECS]
+        translate_fn.emit(REPO, tmp, specs=specs, only=[m.GROUP for m in mods])
+        for f in sorted(os.listdir(tmp)):
+            new = open(os.path.join(tmp, f)).read()
+            dst = os.path.join(gen, f)
+            if not os.path.exists(dst) or open(dst).read() != new:
+                with open(dst, "w") as out:
+                    out.write(new)
+    finally:
+        shutil.rmtree(tmp, ignore_errors=True)
+
+
 def lake(args, timeout=3000):
-    """run lake under a lock so that parallel checks do not race"""
+    """run lake under a lock so that parallel checks do not race; Gen/ is regenerated from REPO under the same lock"""
     import fcntl
     lock = open(os.path.join(LEAN, ".lake.lock"), "w")
     fcntl.flock(lock, fcntl.LOCK_EX)
     try:
+        if args and args[0] == "build":
+            regen_all()
         p = subprocess.run(["lake"] + args, cwd=LEAN, stdout=subprocess.PIPE,
                            stderr=subprocess.STDOUT, text=True, timeout=timeout)
     finally:
@@ -279,13 +328,30 @@ class Check:
     def tables(self, *modules):
         """T-tie for constants: regenerate Gen/Tables.lean from the source and re-prove the bridge
         theorems (source constant = model constant) of the named modules"""
-        import translate_tables
-        translate_tables.emit(REPO, os.path.join(LEAN, "NfcVerif", "Gen", "Tables.lean"))
+        # Gen/Tables.lean is rewritten from REPO by regen_all() under the lake lock before the build
         self.trusted.append("harness/translate_tables.py (ast extraction of literal tables -> Gen/Tables.lean)")
         ok = True
         for m in modules:
             ok = self.lean("NfcVerif.Props." + m, ["NfcVerif.Tables." + t for t in self.TABLES[m]],
                            gen_dependent=True) and ok
+        return ok
+
+    def structural_ties(self):
+        """T-ties regenerated from the source on every run (harness/released.json): bridge theorems of the function
+        translator (regenerated Lean definition = model function, for all inputs) and the exception-flow instance
+        theorems of this property.  A module that no longer builds is a broken proof obligation of this check."""
+        rel = released()
+        ok = True
+        mods = [m for m in fn_spec_modules() if self.pid in m.BRIDGE["properties"]]
+        if mods:
+            self.trusted.append("harness/translate_fn.py + lean/NfcVerif/PyFn.lean (Python subset -> Lean, "
+                                "docs/fn_translator.md; validated by harness/translate_fn_selftest.py)")
+        for m in mods:
+            ok = self.lean(m.BRIDGE["module"], m.BRIDGE["theorems"], gen_dependent=True) and ok
+        if rel.get("excflow"):
+            import excflow
+            if excflow.BY_PROPERTY.get(self.pid):
+                ok = excflow.run(self) and ok
         return ok
 
     def leanchecker(self, modules):
@@ -433,6 +499,7 @@ def main(argv):
                 mod.run(ck)
                 for part in getattr(mod, "PARTS", []):
                     importlib.import_module("props.%s_%s" % (pid.lower(), part)).run_part(ck)
+                ck.structural_ties()
         except (Infra, subprocess.TimeoutExpired, KeyboardInterrupt, MemoryError):
             raise
         except Exception as e:
